@@ -2,6 +2,7 @@
 //! case   = (0 api op a b)  binary; api 0 = ValueObj::try_<op> directly, 1 = Context::eval_bin (hook verif_eval_bin),
 //!                          2 = ValueObj::try_binary
 //!          (1 op a)        unary through Context::eval_unary_val (hook verif_eval_unary)
+//!          (2)             which build is this: (debug_assertions overflow_checks), each 0/1
 //! value  = (0 i) Int(i32) | (1 n) Nat(u64) | (2 bits) Float(f64::from_bits) | (3 b) Bool
 //! output = (0) not evaluated (None / Err) | (1 value) evaluated | (2) evaluated to some other kind of object
 //!          | (-999 msg) panic (reported by sx::serve)
@@ -64,6 +65,12 @@ fn main() {
     let ctx = std::panic::AssertUnwindSafe(Context::default_with_name("<verif>"));
     sx::serve(move |x: &Sx| {
         let ctx: &Context = &ctx;
+        if x.nth(0).z() == 2 {
+            let max = std::hint::black_box(i32::MAX);
+            #[allow(arithmetic_overflow)]
+            let checked = std::panic::catch_unwind(move || max + std::hint::black_box(1)).is_err();
+            return Sx::L(vec![Sx::b(cfg!(debug_assertions)), Sx::b(checked)]);
+        }
         if x.nth(0).z() == 0 {
             let (api, op) = (x.nth(1).z(), x.nth(2).z());
             let (a, b) = (dec(x.nth(3)), dec(x.nth(4)));
